@@ -71,7 +71,7 @@ def cards_hint() -> dict:
 
 def semantic_feasible(ref: RG) -> bool:
     live = len(ref.V) - sum(1 for v in ref.V if cards_hint().get(v.name) == 1)
-    return live <= CONFIG["max_nodes_semantic"] and len(ref.V) <= 16
+    return live <= CONFIG["max_nodes_semantic"] and len(ref.V) <= 200
 
 
 # ---------------------------------------------------------------------------------------
